@@ -1,12 +1,13 @@
 """C05 -- scheduler core (work in progress: metadata filled in below)."""
-from props.common import contract_tasks, lemma_tasks, TRUSTED_CORE
+from props.common import other_tasks, contract_tasks, lemma_tasks, TRUSTED_CORE
 
 PROPERTY = "C05"
 
 
 def tasks(tier):
-    return (contract_tasks("contracts.scheduler", "C05", tier=tier) + contract_tasks("contracts.sim_process", "C05", tier=tier)
+    return ((contract_tasks("contracts.scheduler", "C05", tier=tier) + contract_tasks("contracts.sim_process", "C05", tier=tier)
             + contract_tasks("contracts.progress", "C05", tier=tier) + lemma_tasks("contracts.progress", "C05"))
+            + other_tasks("contracts.closure", "C05", "bounded"))
 
 
 TRUSTED_BASE = TRUSTED_CORE
